@@ -18,7 +18,11 @@ from units import U
 
 ID = 'C13'
 LEVEL = 'proof'
-TIE = {'convert.py converters, vote.py subsetters, component/rankscore.py scorers': 'correspondence'}
+GEN_TIES = {'Rankscore': 'Props/GenTie_Rankscore.v'}
+TIE = {'convert.py converters, vote.py subsetters': 'correspondence',
+       'component/rankscore.py Dowdall / Geometric / ModifiedBorda / FixedTop': 'translator (per-rank score expressions regenerated into Gen/Rankscore.v on '
+                                                                                   'every run, Props/GenTie_Rankscore.v proves them equal to Model/Convert.v rank_scores) + correspondence',
+       'component/rankscore.py Borda (stateful) / SequenceBased (slicing)': 'correspondence'}
 RULE = ('corpus; ranked profiles over 2..5 candidates (shared ranks 25 %, truncation, empty ballots, duplicate images by construction), '
         'approval and score profiles (grades 0..5, partial ballots); every modelled converter (15 kinds x configurations, six rank scorers) '
         'compared with the model; additivity stream: each profile split into two sub-profiles (all splits for <=4 ballots, 6 random '
